@@ -62,7 +62,7 @@ Definition used_src_f (f : Qc) (pr : bool) (c : Col) (j : ProdSource) : Qc :=
     | _ => 0
     end
   else
-    (f * qmin (c_u c) (c_p c)) * (if qltb (qfrac 1 1000) (c_p c) then c_src c j / c_p c else 0).
+    (f * qmin (c_u c) (c_p c)) * (if qltb 0 (c_p c) then c_src c j / c_p c else 0).
 
 Definition used_tot_f (f : Qc) (pr : bool) (c : Col) : Qc :=
   if pr then 0 + used_src_f f pr c EL_INSITU + used_src_f f pr c EL_COGEN
